@@ -12,7 +12,11 @@ package main
 //   sig       input = (packet oracle), impl = what packet.Read returned for the bytes
 //   describe  input = (data oracle truth), impl = file.RPMFile's outcome; truth = what the
 //             generator stored (for the spec checker), () for malformed inputs
-//   alloc     input = (data), impl = (outcome bytes-allocated) measured in-process on inputs
+//   wf        input = package description, impl = 1: generated packages are meant to be well
+//             formed (cross-checks Rpm.pkg_ok, the hypothesis of the theorems)
+//   report    input = package description, impl = file.RPMFile on the Go writer's bytes
+//             (cross-checks Rpm.report, the right-hand side of C19_faithful)
+//   alloc     input = (data), impl = (outcome MiB-allocated) measured in-process on inputs
 //             whose length fields are moderately large           [oracle only]
 //   isolated  input = (data), impl = outcome of inspecting the file in a worker child with a
 //             memory watchdog (huge length fields)               [oracle only]
@@ -632,7 +636,8 @@ func c19Alloc(c *Ctx, tag string, data []byte) {
 	runtime.ReadMemStats(&m0)
 	o := obsDescribe(data).(SL)
 	runtime.ReadMemStats(&m1)
-	c.Emit("alloc:"+tag, SL{SB(data)}, SL{o[0], I(int(m1.TotalAlloc - m0.TotalAlloc))})
+	// whole MiB: the exact byte count is not reproducible from run to run
+	c.Emit("alloc:"+tag, SL{SB(data)}, SL{o[0], I(int((m1.TotalAlloc - m0.TotalAlloc) >> 20))})
 }
 
 // ---------------------------------------------------------------- the generator
@@ -854,6 +859,8 @@ func genC19(c *Ctx) {
 		}
 		data := p.canonical()
 		c.Emit("encode", SL{p.sx()}, SB(data))
+		c.Emit("wf", SL{p.sx()}, I(1))
+		c.Emit("report", SL{p.sx()}, obsDescribe(data))
 		c19Emit(c, "canon", data, p.canonicalTruth())
 		rb := realisticBase(r, p)
 		c19Emit(c, "real", rb.bytes(), p.canonicalTruth())
